@@ -40,11 +40,11 @@ ENGINES = {
                   probes=[("FV_HAVE_INSERT_LVALUE", "sim/fvsim/probe_insert_lvalue.cpp"),
                           ("FV_HAVE_LIST_ASSIGN", "sim/fvsim/probe_list_assign.cpp")]),
     "ownsim": dict(src=["sim/ownsim/ownsim.cpp"], nitro_src=[], ld=[], variants=[("", [])], probes=[]),
-    "optsim": dict(src=["sim/optsim/optsim.cpp"],
+    "optsim": dict(src=["sim/optsim/optsim.cpp"], opt="-O2",
                    nitro_src=["src/options/parser.cpp", "src/options/group.cpp", "src/options/option.cpp",
                               "src/options/multi_option.cpp", "src/options/toggle.cpp", "src/env/get.cpp"],
                    ld=[], variants=[("", [])], probes=[]),
-    "usagesim": dict(src=["sim/usagesim/usagesim.cpp"],
+    "usagesim": dict(src=["sim/usagesim/usagesim.cpp"], opt="-O2",
                      nitro_src=["src/options/parser.cpp", "src/options/group.cpp", "src/options/option.cpp",
                                 "src/options/multi_option.cpp", "src/options/toggle.cpp", "src/env/get.cpp"],
                      ld=[], variants=[("", [])], probes=[]),
@@ -66,7 +66,7 @@ PROPS = {
     "C18": dict(engine="ownsim", level="fault_enumeration", quick=160000, thorough=6000000,
                 design="3.5"),
     "C13": dict(engine="optsim", level="exploration", quick=40000, thorough=1500000, design="3.3"),
-    "C14": dict(engine="optsim", level="exploration", quick=24000, thorough=800000, design="3.3"),
+    "C14": dict(engine="optsim", level="exploration", quick=10000, thorough=200000, design="3.3"),
     "C15": dict(engine="usagesim", level="exploration", quick=40000, thorough=1500000, design="3.4"),
     "C19": dict(engine="dlsim", level="fault_enumeration", quick=160000, thorough=6000000,
                 design="3.6"),
@@ -158,7 +158,7 @@ def build_engine(engine):
     for i, ns in enumerate(spec["nitro_src"]):
         obj = os.path.join(d, "nitro_%d.o" % i)
         nitro_objs.append(obj)
-        cmd = [CXX] + CXXFLAGS + ["-O1", "-c", os.path.join(REPO, ns), "-o", obj]
+        cmd = [CXX] + CXXFLAGS + [spec.get("opt", "-O1"), "-c", os.path.join(REPO, ns), "-o", obj]
         procs.append((ns, subprocess.Popen(cmd, stdout=subprocess.PIPE, stderr=subprocess.STDOUT, text=True)))
     var_objs = []
     for vname, vflags in spec["variants"]:
@@ -214,7 +214,8 @@ def classify_stderr(err, rc):
         return "ubsan:" + _words(err[i + 15:], 4)
     i = err.find("ERROR: AddressSanitizer: ")
     if i >= 0:
-        return "asan:" + _words(err[i + 25:], 3)
+        tok = re.split(r"[ \n]", err[i + 25:], 1)[0]
+        return "asan:" + re.sub(r"[^A-Za-z0-9_\-]", "_", tok)
     if "SIM-HANG" in err:
         return "hang"
     if rc is not None and rc < 0:
